@@ -18,6 +18,7 @@ SeqToSet(s) == { s[i] : i \in 1..Len(s) }
 
 \* universes (override the constants in the cfg)
 TrNone == {}
+Race_no == {{}}
 Def_both == BOOLEAN
 TrVerdicts == {"PASS", "FAIL", "TIMEOUT", "SILENCE", "BYPASS", "RAISE", "T", "F"}
 TrReasons == 1..5
@@ -34,6 +35,7 @@ TInit == /\ tid \in 1..Len(Traces)
 Ev(a) == l <= Len(Tr) /\ Tr[l].a = a /\ l' = l + 1 /\ UNCHANGED tid
 
 Started == { e \in Entry : vrun[e] = 0 /\ vrun'[e] # 0 }
+InFlight == IF "x" \in DOMAIN Tr[l] THEN SeqToSet(Tr[l].x) ELSE {}
 PostOk == LET p == Tr[l].post IN
   /\ p.bg = 0
   /\ now' = p.now
@@ -41,12 +43,15 @@ PostOk == LET p == Tr[l].post IN
   /\ used' = Len(p.out)
   /\ \A e \in 1..Len(p.out) : out'[e] = p.out[e]
   /\ Cardinality({ e \in Entry : ph'[e] = "pend" }) = p.npit
-  /\ Started = SeqToSet(p.vnew)
+  \* validators start exactly for the Interests the packet satisfies; for an Interest whose cancellation is in flight
+  \* (Tr[l].x) the statement says nothing about a validator call, so one is tolerated
+  /\ Started \subseteq SeqToSet(p.vnew)
+  /\ SeqToSet(p.vnew) \subseteq Started \cup InFlight
 
 TExpress == Ev("Express") /\ Express(Tr[l].t, Tr[l].defer) /\ PostOk
 TAwait == Ev("Await") /\ Await(Tr[l].e) /\ PostOk
 TExpressDown == Ev("ExpressDown") /\ ExpressDown(Tr[l].t) /\ PostOk
-TRecvData == Ev("RecvData") /\ RecvData(Tr[l].d, Tr[l].env) /\ PostOk
+TRecvData == Ev("RecvData") /\ RecvDataX(Tr[l].d, Tr[l].env, SeqToSet(Tr[l].x)) /\ PostOk
 TValFinish == Ev("ValFinish") /\ (ValFinish(Tr[l].e, Tr[l].v) \/ LateFinish(Tr[l].e, Tr[l].v)) /\ PostOk
 \* a verdict delivered to nobody (the validator invocation was cancelled with its caller): stutter
 TValNobody == Ev("ValFinish") /\ vrun[Tr[l].e] = 0 /\ UNCHANGED vars /\ PostOk
@@ -56,7 +61,7 @@ TTick == Ev("Tick") /\ Tick /\ PostOk
 TCancel == Ev("Cancel") /\ Cancel(Tr[l].e) /\ PostOk
 TCancelDone == Ev("Cancel") /\ ph[Tr[l].e] \in {"fin", "unused"} /\ UNCHANGED vars /\ PostOk
 TShutdown == Ev("Shutdown") /\ Shutdown /\ PostOk
-TRecvNack == Ev("RecvNack") /\ RecvNack(Tr[l].t, Tr[l].r, Tr[l].env) /\ PostOk
+TRecvNack == Ev("RecvNack") /\ RecvNackX(Tr[l].t, Tr[l].r, Tr[l].env, SeqToSet(Tr[l].x)) /\ PostOk
 TRecvJunk == Ev("RecvJunk") /\ RecvJunk("junk") /\ PostOk
 
 TNext == \/ TExpress \/ TAwait \/ TExpressDown \/ TRecvData \/ TValFinish \/ TValNobody \/ TFire \/ TFireNone
